@@ -7,7 +7,7 @@
 (*   fault   a run of MC_C06's product (one fault or none)      (C06)      *)
 (*   steps   a run of MC_C10's product (configuration lattice)  (C10)      *)
 (***************************************************************************)
-EXTENDS TraceBase, FiniteSets
+EXTENDS TraceBase, FiniteSets, BVPipeline
 VARIABLE l
 TraceInit == l = 1
 Good == <<OK, 0>>
@@ -28,7 +28,25 @@ FaultVerdict(e) ==
   ELSE IF e.exit = 0 /\ ~c.dry /\ {e.changed[q] : q \in 1..Len(e.changed)} # {c.written[q] : q \in 1..Len(c.written)} THEN <<"fault:written-set", c.written>>
   ELSE Good
 
-Verdict(e) == CASE e.ev = "fault" -> FaultVerdict(e) [] OTHER -> <<"unknown-event", e.ev>>
+\* projection of the recorded log onto the vocabulary of the property: queries are dropped, the add of each file is one "add" step
+StepName(x) == IF x.kind = "hook" THEN (IF x.name = "pre" THEN "prehook" ELSE "posthook")
+               ELSE CASE x.name = "add_path" -> "add" [] x.name \in {"ls_tags", "ls_tags_branch"} -> "lstags"
+                      [] x.name \in {"fetch", "status", "commit", "tag", "tag_light", "push", "push_tag"} -> x.name [] OTHER -> "query"
+RECURSIVE Collapse(_)
+Collapse(s) == IF Len(s) < 2 THEN s ELSE IF s[1] \in {"add", "lstags"} /\ s[2] = s[1] THEN Collapse(Tail(s)) ELSE <<s[1]>> \o Collapse(Tail(s))
+Project(log) == Collapse(SelectSeq([q \in 1..Len(log) |-> StepName(log[q])], LAMBDA x : x # "query"))
+
+\*  e.case : a configuration of the lattice (BVPipeline)   e.exit, e.changed, e.log : what the real run did
+\*  e.old, e.new : the versions the run went from / to (for the hook environment)
+StepsVerdict(e) ==
+  LET x == Expected(e.case) got == Project(e.log) IN
+  IF x.exit0 # (e.exit = 0) THEN <<"steps:exit-class", x.exit0>>
+  ELSE IF got # x.log THEN <<"steps:order-or-gating", x.log>>
+  ELSE IF e.changed # x.changed THEN <<"steps:files-changed", x.changed>>
+  ELSE IF \E q \in 1..Len(e.log) : e.log[q].kind = "hook" /\ (e.log[q].old # e.old \/ e.log[q].new # e.new) THEN <<"steps:hook-environment", <<e.old, e.new>> >>
+  ELSE Good
+
+Verdict(e) == CASE e.ev = "fault" -> FaultVerdict(e) [] e.ev = "steps" -> StepsVerdict(e) [] OTHER -> <<"unknown-event", e.ev>>
 TraceNext == /\ l <= Len(Trace) /\ l' = l + 1
              /\ LET v == Verdict(Trace[l]) IN v[1] = OK \/ Report(Trace[l], v[1], v[2])
 TraceAccepted == TLCGet("stats").diameter - 1 = Len(Trace)
